@@ -10,7 +10,11 @@ def run(tier, replay=None):
     cases = T.corpus(c, thorough, thorough)
     tr = T.observe(c, cases, 70, 0, limit=None)
     T.validate(c, "C16", tr)
+    # the same programs OPTIMISED (opt-level 3: functions with identical machine code are merged, constants folded):
+    # what == / cmp / hash say about two types must not depend on how the program was compiled
+    tr2 = T.observe(c, cases, 70, 0, limit=None if thorough else 12, rustc_extra=["-C", "opt-level=3"])
+    T.validate(c, "C16", tr2)
     c.cov["exhaustive"] = False
-    c.cov["rule"] = "TLC-enumerated built-in type expressions (all leaves, every unary constructor over every leaf, wrappers of wrappers, binaries, tuple arities 0..20, arrays, BitVec) in generated programs of ~70 expressions: per program the full ==, cmp, partial_cmp and hash matrices over all ordered pairs are compared with the identities DECLARED by the types (TypeId of <T as TypeInfo>::Identity, read by the program itself), order axioms checked, equal identity => equal type_info()"
+    c.cov["rule"] = "TLC-enumerated built-in type expressions (all leaves, every unary constructor over every leaf, wrappers of wrappers, binaries, tuple arities 0..20, arrays, BitVec) in generated programs of ~70 expressions: per program the full ==, cmp, partial_cmp and hash matrices over all ordered pairs are compared with the identities DECLARED by the types (TypeId of <T as TypeInfo>::Identity, read by the program itself), order axioms checked, equal identity => equal type_info(); the programs are compiled unoptimised and (a part of them in the quick tier) with opt-level 3"
     c.assumptions += ["pairs are compared within a program (70 expressions -> 4900 ordered pairs), not across programs"]
     return c.finish()
